@@ -613,6 +613,41 @@ def _fmt_edges(edges):
     return "{" + ", ".join("%s->%s" % (k, sorted(v, key=str)) for k, v in sorted(edges.items(), key=lambda x: str(x[0]))) + "}"
 
 
+def later_trip_state(it, body, head, target):
+    """the state just before the terminator of block `target` (inside the loop at `head`) on any trip after the first; None when
+    it is not reached then.  The back-edge states of the fixpoint hold for every trip, so one acyclic pass from their join is enough;
+    an inner loop is entered with its own fixpoint state."""
+    blocks = body.loops[head]
+    S0 = None
+    for s in back_edge_sources(body, head):
+        e = it.edge_out.get((s, head))
+        if e is not None:
+            S0 = e.copy() if S0 is None else join_states(S0, e, head)
+    if S0 is None:
+        return None
+    states = {head: S0}
+    for bi in body.rpo:
+        if bi not in blocks or bi not in states:
+            continue
+        if bi != head and bi in body.loop_heads:
+            glob = it.entry_states.get(bi)
+            if glob is None:
+                continue
+            states[bi] = glob.copy()
+        S = it.exec_block(states[bi].copy(), bi)
+        if S is None or S.dead:
+            continue
+        if bi == target:
+            return S
+        it.cur = (bi, len(body.blocks[bi]["stmts"]))
+        it.counter = 0
+        for succ, S2 in it.flow(S, bi):
+            if succ not in blocks or body.blocks[succ]["cleanup"] or (bi, succ) in body.back_edges:
+                continue
+            states[succ] = S2 if succ not in states else join_states(states[succ], S2, succ)
+    return None
+
+
 def session_loop(env, body, head):
     """loop around ChunkDeserializer::get_next_message: it repeats only after a message was returned, and the caller's bytes are
     fed exactly once - every call that can execute more than once passes an empty slice (C15 R3)"""
@@ -671,23 +706,18 @@ def session_loop(env, body, head):
             continue
         if bi not in blocks:
             return (False, "get_next_message is also called in another loop with a slice that is not provably empty")
-        src_local = None
-        for li, l in enumerate(body.locals):
-            if l["name"] and l["t"].get("k") == "ref":
-                lv = Sc.read((it.L(li), ()))
-                if lv == cargs[1] or cargs[1] == ("ref", (("P", lv), ())):
-                    src_local = li
-        if src_local is None:
-            return (False, "the slice argument of get_next_message is not held in a variable the analysis can follow")
-        for s in back_edge_sources(body, head):
-            S = it.edge_out.get((s, head))
-            if S is None:
-                continue
-            v = S.read((it.L(src_local), ()))
-            ln2 = it.len_of_ref(S, v, body.locals[src_local]["t"])
-            d2 = S.dom(ln2)
-            if not (d2.lo == d2.hi == 0):
-                return (False, "on the back edge from bb%d the slice fed to get_next_message again is not provably empty (len %s): the same bytes would be appended twice" % (s, d2))
+        # the state in which the call is reached on every trip but the first: one forward pass through the loop body from the
+        # join of the back-edge states (which, at the fixpoint, cover every later trip)
+        S2 = later_trip_state(it, body, head, bi)
+        if S2 is None:
+            continue          # the call is not reached again
+        it.cur = (bi, len(body.blocks[bi]["stmts"]))
+        it.counter = 0
+        a2 = it.eval_op(S2, t["args"][1])
+        ln2 = it.len_of_ref(S2, a2, it.op_type(t["args"][1]))
+        d2 = S2.dom(ln2)
+        if not (d2.lo == d2.hi == 0):
+            return (False, "on a second trip round the loop the slice fed to get_next_message is not provably empty (len %s): the same bytes would be appended twice" % (d2,))
     return (True, "repeats only after Some(message); every repeated call of get_next_message passes an empty slice (%d call site(s))" % len(calls))
 
 
